@@ -279,6 +279,7 @@ def run(tier, seed, prop='C01'):
             continue        # renaming clauses belong to C02
         chk.violation('BOUNDED:minify/native differential: %s' % why[:60],
                       {'program': repr(bytes.fromhex(src)), 'config': args, 'observed': why}, True)
+    chk.native_witness = [b for b in nat['bad'] if 'renamed' not in b[2] and 'two identifiers' not in b[2]]
     chk.trust('pyvc symbolic executor (real loop body -> transition relation); exhaustive exploration of the finite control x ghost space')
     chk.trust('REG decision procedure over LexSpec (specs/lexspec.py) for the FUSE relation; real patterns parsed with re._parser')
     chk.assume('the loop body depends on the token only through its class, `token.code in b\'])}\'` and the chunks it yields (checked: '
